@@ -356,6 +356,46 @@ def r7_guard_reaches_the_compiler_as_written(ctx):
                                   'what the user wrote. ')
 
 
+def r8_every_valid_guard_is_checked_for_overlap(ctx):
+    from ..govern import controlling_switches
+    ctx.rule('C20.R8', 'P12 decision audit: `detect_domain_conflicts` examines the guards recorded in `AuxiliaryData::domain_guard2locations` and nothing else, '
+             'while the generated router is built from the guards carried by the handlers. So every guard that passed `DomainGuard::new` is recorded: '
+             'in the blueprint-processing module the write to `domain_guard2locations` is governed only by the shape of the input (is there a domain, did '
+             'validation succeed), never by a further test ("does this blueprint gate any route?"). A guard left out of the registry is not checked for '
+             'overlap; two overlapping guards on blueprints that only import their routes are then accepted and the generated `domain_router()` panics '
+             'on `insert(..).unwrap()` at start-up.')
+    UC = 'pavexc::compiler::analyses::user_components::'
+    n = 0
+    for b in ctx.fb.bodies('pavexc'):
+        if b.is_promoted or not b.nroot.startswith(UC):
+            continue
+        defs = None
+        for bb, t in b.calls():
+            m = (callee(t) or '').split('::')[-1]
+            if m not in ('entry', 'insert', 'push', 'extend') or not t['args']:
+                continue
+            q = op_place(t['args'][0])
+            if q is None:
+                continue
+            defs = defs or Defs(b)
+            sl, _ = backward_slice(b, q['l'], defs, through_calls=False)
+            hit = any(('f:domain_guard2locations' in ((nd.get('rv') or {}).get('pl') or {}).get('p', [])) for _, _, nd in sl) or 'f:domain_guard2locations' in q.get('p', [])
+            if not hit:
+                continue
+            n += 1
+            bad = []
+            for sb, st in controlling_switches(b, bb):
+                if 'enum' in st:
+                    continue
+                pl = op_place(st['d'])
+                s2, _ = backward_slice(b, pl['l'], defs) if pl is not None else ([], set())
+                cs = sorted({(x or '?').split('::')[-1] for x, _, _ in slice_calls(s2)})
+                bad.append('%s at %s' % (cs or 'a flag', b.loc(sb)))
+            ctx.ob('C20.R8', 'guard-always-recorded|%s|#%d' % (b.nroot.replace(UC, ''), n), not bad, b.loc(bb, t),
+                   'the write to domain_guard2locations is governed by shape tests only%s' % ('' if not bad else ' — NO: it also depends on ' + '; '.join(bad)))
+    ctx.floor('C20.R8', 'writes to the registry of domain guards', n, 1)
+
+
 def check(ctx):
     r1_validated_constructor(ctx)
     r2_one_pattern_source(ctx)
@@ -364,3 +404,4 @@ def check(ctx):
     r5_one_numbering(ctx)
     r6_boundary_checks_look_at_the_boundary(ctx)
     r7_guard_reaches_the_compiler_as_written(ctx)
+    r8_every_valid_guard_is_checked_for_overlap(ctx)
